@@ -53,6 +53,12 @@ PLANNERS = {
     "CForest": (3000, False),
     "AnytimePathShortening": (30000, False),
 }
+# planners that register paths through the same ProblemDefinition but are not optimizing planners of the property's list, or
+# share the optimizing planners' code (PRM.cpp / LazyPRM.cpp serve PRM*/LazyPRM*): driven through the same oracle with a
+# reduced set of runs (asymmetric objectives, Dubins, two goals, two starts, clear histories)
+EXTRA_PLANNERS = {
+    "PRM": 1500, "LazyPRM": 1200, "BiTRRT": 1500, "LazyRRT": 1500, "SPARS": 1500, "SPARStwo": 1500, "QRRTStar": 1200, "QMPStar": 250,
+}
 
 # Planners held to EQUALITY: whenever a solution carries a stored cost, |stored - recomputed| <= 1e-9
 # relative and the stored cost is finite whenever the recomputed cost is (exact *and* approximate
@@ -79,6 +85,11 @@ EQUALITY = {
     "LBTRRT": "stores no cost (its bestCost_/costApx_ bound bookkeeping never reaches the PlannerSolution)",
     "LazyLBTRRT": "stores no cost",
     "AnytimePathShortening": "stores no cost (adds the simplified / hybridized paths as plain paths)",
+    "PRM": "PRM.cpp, the code behind PRMstar: stores cost() of the reported path",
+    "LazyPRM": "LazyPRM.cpp, the code behind LazyPRMstar",
+    "BiTRRT": "stores no cost", "LazyRRT": "stores no cost", "SPARS": "stores no cost", "SPARStwo": "stores no cost",
+    "QRRTStar": "stores no cost (BundleSpaceSequence registers the top level's path as a plain PlannerSolution)",
+    "QMPStar": "stores no cost (same)",
 }
 # Planners NOT held to equality (only "stored never better than recomputed"), with the reason:
 NOT_EQUAL = {
@@ -87,10 +98,11 @@ NOT_EQUAL = {
     "RRTXstatic": "epsilon-consistency: cost decreases below epsilon are deliberately not propagated (stored cost lags = worse); approximate "
                   "solutions are stored with the incumbent bestCost_ (= infinity)",
 }
-assert set(EQUALITY) | set(NOT_EQUAL) == set(PLANNERS) and not set(EQUALITY) & set(NOT_EQUAL)
+assert set(EQUALITY) | set(NOT_EQUAL) == set(PLANNERS) | set(EXTRA_PLANNERS) and not set(EQUALITY) & set(NOT_EQUAL)
 
 OBJ_KINDS_RUN = ["sci", "scii", "minimax", "clear", "work", "multi"]
 MAXIMIZING = {"clear"}
+ASYM_KINDS = ["work", "clear", "multi", "minimax"]      # direction-dependent motion costs
 
 
 # ---------------------------------------------------------------------------------- records / spec
@@ -634,7 +646,7 @@ def oracle_run(job, lines):
                 fails.append(("bound", "true cost %r is better than the objective's admissible bound %r between the path's end points (%s)" % (d.true, d.h, d.text)))
             if d.plen < d.sl - TOL * max(1.0, d.sl):
                 fails.append(("bound", "path length %r below the straight line %r" % (d.plen, d.sl)))
-            if kind == "len":
+            if kind in ("len", "dublen"):
                 if d.true < d.sl - TOL * max(1.0, d.sl):
                     fails.append(("bound", "path-length cost %r below the straight line %r" % (d.true, d.sl)))
                 if not r.approx and d.first_ok and d.last_ok and d.true < qbound - TOL * max(1.0, qbound):
@@ -771,6 +783,11 @@ def make_jobs(ck, rng):
                 for kind in kinds:
                     thr = r.choice(["def", "def", "inf", f2bits(r.choice([0.05, 0.2, 1.0, 2.0, 4.0]))])
                     job(planner, kind, r.range(1, 2), thr, r.choice([0, 1, 3, 4]), 2, r.range(1, 10 ** 6), max(evals // 2, 800), 2, g_small)
+            # path length in a Dubins space (direction-dependent distance) and a query with two start states (env 8)
+            job(planner, "dublen", 0, "def", r.choice([0, 1, 4]), 3, r.range(1, 10 ** 6), 250 if evals < 20000 else 3000, 2, f2bits(0.1),
+                hist=r.choice(["c", "s"]))
+            job(planner, "len" if not general else r.choice(["len"] + ASYM_KINDS), r.range(1, 2), "def", 8, 2, r.range(1, 10 ** 6), max(evals // 3, 400),
+                2, g_small, hist=r.choice(["c", "k"]))
             if planner == "LazyPRMstar":
                 # (its lazily validated roadmap gets slow over many slices: fewer of them)
                 job(planner, "len", 0, "def", 6, 2, r.range(1, 10 ** 6), 400, 10, f2bits(0.01), 1)
@@ -780,6 +797,13 @@ def make_jobs(ck, rng):
                 # an objective without admissible heuristic (unit state-cost integral: nothing is pruned)
                 job(planner, "sci", 0, "def", 6, 2, r.range(1, 10 ** 6), 500, 30 if ck.tier == "quick" else 80, f2bits(0.01), 1)
                 job(planner, "len", 0, "def", 6, 2, r.range(1, 10 ** 6), 500, 25, f2bits(0.01), 1)
+        for planner, evals in EXTRA_PLANNERS.items():
+            r = rng.fork("xjob-%s-%d" % (planner, rep))
+            job(planner, "len", 0, "def", 7, 2, r.range(1, 10 ** 6), evals, 3, g_small, hist="cs")
+            job(planner, r.choice(ASYM_KINDS), r.range(1, 2), r.choice(["def", "inf"]), r.choice([0, 1, 3, 4]), 2, r.range(1, 10 ** 6), evals, 2, g_small,
+                hist=r.choice(["s", "k"]))
+            job(planner, "len", 0, "def", 8, 2, r.range(1, 10 ** 6), evals, 2, g_small, hist="c")
+            job(planner, "dublen", 0, "def", r.choice([0, 1]), 3, r.range(1, 10 ** 6), min(evals, 300), 2, f2bits(0.1), hist="c")
     return jobs
 
 
@@ -1288,7 +1312,7 @@ def run(ck):
     judge_rrt(ck, hrrt, rjobs)
     ck.extra_cov["rrtstar_lockstep_runs"] = len(rjobs)
     ck.extra_cov["planner_runs"] = len(jobs)
-    ck.extra_cov["planners"] = sorted(PLANNERS)
+    ck.extra_cov["planners"] = sorted(PLANNERS) + sorted(EXTRA_PLANNERS)
     return 0
 
 
@@ -1373,7 +1397,9 @@ MANIFEST = {
             "bestCost_ monotone and equal to the best goal motion's current cost, optimized flag <-> isSatisfied(stored cost) for "
             "exact solutions (no partial theorem left); algebraic laws of the shipped objectives (monoid laws, max/min, trapezoid, "
             "mechanical work, weighted sums) and a Laws instance (non-vacuity); oracle-only: FMT* cost-to-come bookkeeping on real "
-            "trees; bit-for-bit lock-step of the whole tree against the real planner (recording "
+            "trees, and 28 planners (the 20 optimizing ones + PRM, LazyPRM, BiTRRT, LazyRRT, SPARS, SPARStwo, QRRTStar, QMPStar) through the "
+            "stored-cost / ranking oracle with asymmetric objectives, Dubins, two goals, two starts and clear()/continue histories; the "
+            "RRT* lock-step recomputes every checkMotion answer in the model (DiscreteMotionValidator on box worlds); bit-for-bit lock-step of the whole tree against the real planner (recording "
             "sampler / validator, twin RNG), incl. scripted collinear dyadic inputs with exactly cost-equal candidates.",
     "note": "Trusted: Lean kernel, the three standard axioms, the hand-written model outside the scripts the correspondence explored, "
             "the harness, the Python oracle. Part C is sampled (planners x objectives x environments x seeds listed in the evidence); "
